@@ -182,9 +182,15 @@ def cases(rng, tier):
                 {"name": "rel_list_scan", "args": [[2, [num(0), num(3)]], [1, [num(5), num(-5)]]]},
                 {"name": "rel_grid_scan", "args": [[0, num(0), num(2), 2], [1, num(-1), num(1), 2]], "snake": False},
                 {"name": "rel_grid_scan", "args": [[2, num(1), num(3), 2], [0, num(0), num(1), 2]], "snake": True},
+                {"name": "rel_list_grid_scan", "args": [[0, [num(1), num(-2)]], [1, [num(3), num(0), num(-1)]]], "snake": False},
+                {"name": "rel_list_grid_scan", "args": [[2, [num(2), num(5)]], [0, [num(-1), num(1)]]], "snake": True},
+                {"name": "rel_log_scan", "args": [[1, num(0), num(1)]], "num": 3},
+                {"name": "rel_spiral", "args": [[0], [2]], "params": [num(2), num(2), num(1), num(3)]},
+                {"name": "rel_spiral_fermat", "args": [[1], [0]], "params": [num(2), num(2), num(1), num(1)]},
+                {"name": "rel_spiral_square", "args": [[2], [1]], "params": [num(2), num(1), 3, 2]},
             ]
             for j, pl in enumerate(P):
-                if mode == "z" and pl["name"] in ("rel_scan", "rel_grid_scan"):
+                if mode == "z" and pl["name"] not in ("mvr", "rel_list_scan", "rel_list_grid_scan"):
                     continue          # numpy.linspace makes floats of the end points: float cases only
                 if quick and (j + k) % 2 and mode != "z":
                     continue
@@ -391,6 +397,18 @@ class Engine:
         if n == "rel_grid_scan":
             args = [x for d, a, b, k in pc["args"] for x in (M[d], R.num_py(a), R.num_py(b), k)]
             return (bp.rel_grid_scan if relative else bp.grid_scan)([self.det], *args, snake_axes=pc["snake"])
+        if n == "rel_list_grid_scan":
+            args = [x for d, vs in pc["args"] for x in (M[d], [R.num_py(v) for v in vs])]
+            return (bp.rel_list_grid_scan if relative else bp.list_grid_scan)([self.det], *args, snake_axes=pc["snake"])
+        if n == "rel_log_scan":
+            (d, a, b), = pc["args"]
+            return (bp.rel_log_scan if relative else bp.log_scan)([self.det], M[d], R.num_py(a), R.num_py(b), pc["num"])
+        if n in ("rel_spiral", "rel_spiral_fermat", "rel_spiral_square"):
+            (dx,), (dy,) = pc["args"]
+            ps = [x if isinstance(x, int) else R.num_py(x) for x in pc["params"]]
+            if relative:
+                return getattr(bp, n)([self.det], M[dx], M[dy], *ps)
+            return getattr(bp, n[4:])([self.det], M[dx], M[dy], 0, 0, *ps)
         raise ValueError(n)
 
     def run(self, relative, fail_at=None):
